@@ -49,6 +49,8 @@ impl Handler for NoAwaitInSyncFnHandler {
         MethodProp(decl) => !decl.function.is_async(),
         ClassMethod(decl) => !decl.function.is_async(),
         PrivateMethod(decl) => !decl.function.is_async(),
+        // never async
+        Constructor(_) | GetterProp(_) | SetterProp(_) | StaticBlock(_) => true,
         _ => {
           let parent = match node.parent() {
             Some(p) => p,
